@@ -130,6 +130,29 @@ Section Proofs.
     induction d as [|[k v] d IH]; simpl; auto. destruct (public_key k); simpl; now rewrite IH.
   Qed.
 
+  (* multi-energy nets *)
+  Lemma multinet_roundtrip_lemma : forall d, wf_mdoc L known_component d = true ->
+    decode_multi L E ldec known_component (encode_multi L E lenc d) =
+    Some (map (on_snd (q_mvalue L quant)) (mstrip L d)).
+  Proof.
+    intros d W. unfold decode_multi, encode_multi. simpl. apply mapM_map. intros [k v] Hin.
+    unfold on_sndM, on_snd. simpl.
+    assert (Wv : match v with MVLeaf _ _ => true | MVNets _ ns => forallb (fun x => wf_member L known_component (snd x)) ns end = true).
+    { unfold wf_mdoc in W. rewrite forallb_forall in W. unfold mstrip in Hin. apply filter_In in Hin.
+      apply (W (k, v)). apply Hin. }
+    destruct v as [l|ns]; simpl.
+    - now rewrite leaf_law.
+    - rewrite (mapM_map _ _ (on_snd (q_member L quant))); auto.
+      intros [n m] Hm. unfold on_sndM, on_snd. simpl. rewrite forallb_forall in Wv. specialize (Wv _ Hm). simpl in Wv.
+      destruct m as [dd|l]; simpl.
+      + rewrite roundtrip_lemma; auto.
+      + now rewrite leaf_law.
+  Qed.
+
+  Lemma multinet_member_names_kept_lemma : forall ns : list (string * member L),
+    map fst (map (on_snd (q_member L quant)) ns) = map fst ns.
+  Proof. intros ns. rewrite map_map. apply map_ext. now intros [n m]. Qed.
+
   (* re-saving *)
   Hypothesis lenc_quant : forall v, lenc (quant v) = lenc v.
 
@@ -180,6 +203,27 @@ Section Proofs.
     intros d. unfold map_leaves, strip_internal. induction d as [|[k v] d IH]; simpl; auto.
     destruct (public_key k) eqn:P; simpl; auto. rewrite P. simpl. rewrite IH. f_equal.
     unfold on_snd. simpl. now rewrite q_value_idem.
+  Qed.
+
+  (* exact leaf codec (pickle: quant = identity) *)
+  Lemma q_value_id : (forall v, quant v = v) -> forall v, q_value L quant v = v.
+  Proof.
+    intros Q. assert (QF : forall f, qf f = f).
+    { intros f. unfold Model.qf. rewrite <- (map_id f) at 2. apply map_ext. intros [k x]. unfold on_snd. simpl. now rewrite Q. }
+    intros [l|a ps|tabs|cs]; simpl; auto.
+    - now rewrite Q.
+    - rewrite QF. f_equal. rewrite <- (map_id ps) at 2. apply map_ext. intros [k [c at_ g]]. unfold on_snd, q_prop. simpl.
+      now rewrite !QF.
+    - f_equal. rewrite <- (map_id tabs) at 2. apply map_ext. intros [t m]. unfold on_snd. simpl. f_equal.
+      rewrite <- (map_id m) at 2. apply map_ext. intros [k st]. simpl. f_equal. destruct st; simpl; now rewrite QF.
+  Qed.
+
+  Lemma roundtrip_exact_lemma : (forall v, quant v = v) -> forall d, wf_doc L known_component d = true ->
+    decode L E ldec known_component (encode L E lenc d) = Some (strip_internal L d).
+  Proof.
+    intros Q d W. rewrite roundtrip_lemma; auto. f_equal. unfold map_leaves.
+    rewrite <- (map_id (strip_internal L d)) at 2. apply map_ext. intros [k v]. unfold on_snd. simpl.
+    now rewrite q_value_id.
   Qed.
 
   (* fluid *)
